@@ -7,4 +7,5 @@ import NormModel.Properties.C08
 #print axioms Norm.C08.json_errors_sorted
 #print axioms Norm.C08.lexer_codes_in_catalogue
 #print axioms Norm.C08.catalogue_keys_nodup
+#print axioms Norm.C08.catalogue_texts_distinct
 #print axioms Norm.C08.lexer_diags_have_highlight
